@@ -25,8 +25,13 @@ def search_products(chk, r):
 
 
 def search_switch_off(chk, r, n, max_pto, only_pto=None):
-    for _ in range(n):
+    for i_case in range(n):
         pto = only_pto or r.choice([p for p in (1, 2, 3) if p <= max_pto])
+        # the order of the evolution (card entry PTO) is independent of the order of the coefficient
+        # functions (PTODIS): the scale-variation terms follow the latter
+        pto_evol = r.choice([pto, pto, max(pto - 1, 0), min(pto + 1, 2)]) if pto < 3 else pto
+        if only_pto is None and i_case == 0 and max_pto >= 2:
+            pto, pto_evol = 2, 1
         process = r.choice(["EM", "NC", "CC"])
         kind = r.choice(cards.UNPOL)
         fl = r.choice(["light", "total"]) if pto > 1 else r.choice(["light", "total", "charm"])
@@ -38,7 +43,7 @@ def search_switch_off(chk, r, n, max_pto, only_pto=None):
             for ren in (True, False):
                 for fact in (True, False):
                     if ren and fact or r.random() < 0.7:
-                        outs[(ren, fact)] = realrun.run(cards.theory(PTO=pto, FNS=scheme, NfFF=nfff, RenScaleVar=ren, FactScaleVar=fact), cards.obs({name: p}, prDIS=process, interpolation_xgrid=cards.default_grid(8)))[name][0]
+                        outs[(ren, fact)] = realrun.run(cards.theory(PTO=pto_evol, PTODIS=pto, FNS=scheme, NfFF=nfff, RenScaleVar=ren, FactScaleVar=fact), cards.obs({name: p}, prDIS=process, interpolation_xgrid=cards.default_grid(8)))[name][0]
         except Exception as e:
             chk.extra.setdefault("search_exceptions", {})
             k = f"{type(e).__name__}:{str(e)[:80]}"
@@ -58,7 +63,7 @@ def search_switch_off(chk, r, n, max_pto, only_pto=None):
                     bad = f"key {k} changed"
             if set(res.orders) != set(full.orders):
                 bad = "key sets differ"
-            sample = dict(obs=name, process=process, pto=pto, FNS=scheme, RenScaleVar=ren, FactScaleVar=fact, point=p[0], keys=len(res.orders), problem=bad)
+            sample = dict(obs=name, process=process, pto=pto, pto_evol=pto_evol, FNS=scheme, RenScaleVar=ren, FactScaleVar=fact, point=p[0], keys=len(res.orders), problem=bad)
             nontriv = any(np.any(np.asarray(full.orders[k][0]) != 0) for k in full.orders if k[2] > 0 or k[3] > 0)
             chk.search_case("switch_off_exact", bad is None, what=f"switching off ren={ren} fact={fact}: {bad}", data=sample, sample=sample, nontrivial=nontriv)
         # renormalisation terms against the central ones: (2,0,1,0) = -beta0 (1,0,0,0), and at PTO 3
@@ -72,10 +77,46 @@ def search_switch_off(chk, r, n, max_pto, only_pto=None):
             if pto >= 3:
                 rels += [((3, 0, 2, 0), b0 * b0 * o[(1, 0, 0, 0)]), ((3, 0, 1, 0), -2 * b0 * o[(2, 0, 0, 0)] - b1 * o[(1, 0, 0, 0)])]
             for key, exp in rels:
-                d = float(np.abs(o[key] - exp).max())
+                got = o.get(key, np.zeros_like(exp))
+                d = float(np.abs(got - exp).max())
                 s = float(np.abs(exp).max())
-                sample = dict(obs=name, process=process, pto=pto, nf=nf, key=list(key), maxdiff=d, scale=s)
+                sample = dict(obs=name, process=process, pto=pto, pto_evol=pto_evol, FNS=scheme, nf=nf, key=list(key), present=key in o, maxdiff=d, scale=s)
                 chk.search_case("ren_terms_vs_central", d <= 1e-11 * max(s, 1e-300), what=f"{key} is not the beta-function combination of the central coefficients", data=sample, sample=sample, nontrivial=s > 0)
+
+
+def search_raw_operators(chk, r, thorough):
+    """the operators the labels P_qq_0, ... stand for: every entry [l, k] of what the real
+    `convolve_operator` builds from a splitting kernel is (P (x) p_l)(x_k), by an independent
+    quadrature (other variable, own breakpoints); all entries, in particular the ones of the clamped
+    blocks at the top of the grid, where a basis function reaches far above its own node"""
+    import yadism
+    from yadism.esf import conv
+    from yadism.coefficient_functions import splitting_functions as split
+
+    from .c01 import indep_convolution
+
+    for degree, is_log in ((3, True), (4, True)) + (((2, False), (5, True)) if thorough else ()):
+        N = 8 if degree < 5 else 9
+        grid = cards.default_grid(N, 0.01) if is_log else cards.linspace(0.05, 1.0, N)
+        interp = yadism.Runner(cards.theory(PTO=1), cards.obs({"F2_light": [dict(x=0.5, Q2=10.0)]}, interpolation_xgrid=grid, interpolation_polynomial_degree=degree, interpolation_is_log=is_log)).configs.interpolator
+        for order_labels in split.raw_labels[: (2 if thorough else 1)]:
+            for label, fnc in order_labels.items():
+                nf = r.choice([3, 4, 5])
+                rsl = fnc(nf)
+                try:
+                    op, _err = conv.convolve_operator(rsl, interp)
+                    ref = np.zeros_like(op)
+                    for k, xk in enumerate(grid):
+                        if xk < 1.0:
+                            ref[:, k] = indep_convolution(rsl, float(xk), interp, grid)
+                except Exception as e:  # noqa
+                    chk.search_case("raw_operator_entries", False, what=f"{label} degree={degree}: {type(e).__name__}: {e}"[:200], data=dict(label=label, degree=degree))
+                    continue
+                scale = float(np.abs(ref).max())
+                dd = np.abs(op - ref)
+                idx = np.unravel_index(int(dd.argmax()), dd.shape)
+                sample = dict(label=label, nf=nf, degree=degree, is_log=is_log, N=N, maxdiff=float(dd.max()), scale=scale, at=dict(basis=int(idx[0]), node=int(idx[1]), real=float(op[idx]), reference=float(ref[idx])))
+                chk.search_case("raw_operator_entries", float(dd.max()) <= 5e-7 * max(scale, 1e-300), what=f"{label} (nf={nf}, degree {degree}): entry [basis {idx[0]}, node {idx[1]}] of the operator is {op[idx]:.6g}, the convolution with that basis function gives {ref[idx]:.6g}", data=sample, sample=sample if label == "P_qq_0" else None, nontrivial=scale > 0)
 
 
 def search_multi_nf(chk, r, n):
@@ -154,13 +195,14 @@ def run(tier):
     corr_sv.run_sv(chk, 600 if thorough else 60, r)
     search_products(chk, r)
     search_sector_mapping(chk, r)
+    search_raw_operators(chk, r, thorough)
     search_multi_nf(chk, r, 12 if thorough else 2)
     search_switch_off(chk, r, 40 if thorough else 5, 3 if thorough else 2)
     if not thorough:
         search_switch_off(chk, common.rng('C05-n3lo'), 1, 3, only_pto=3)
     chk.assumptions += [
         "RGE theorem is over an arbitrary commutative Q-algebra (the convolution algebra); that 'P_qq_0^2', 'P_qg_0P_gq_0', ... are the products of their factors is a hypothesis (structure Products), checked on Mellin moments of the real kernels each run; their x-space local terms are C03's obligation",
-        "how the seven sector operators recombine into quark-singlet/gluon components (actS) rests on the matrix-unit relations of eko's projectors: decided by the kernel on the exact matrices regenerated from the installed eko each run (projector_relations, nf = 3..6); the step from those relations to the sector-wise algebra is the standard one and is not formalised; additionally exercised by the compute_local correspondence with eko's real projectors",
+        "how the seven sector operators recombine into quark-singlet/gluon components (actS) rests on the matrix-unit relations of eko's projectors: decided by the kernel on the exact matrices regenerated from the installed eko each run (projector_relations, nf = 3..6); the step from those relations to the sector-wise algebra is E_mul / fact_rge_flavour_space / fact_rge_eko (list-of-rows matrices bridged to Mathlib matrices in Lemmas/MatBridge.lean); that DGLAP evolution in flavour space is sum_s pi_s (x) P_s is eko's convention; additionally exercised by the compute_local correspondence with eko's real projectors",
         "muF terms exist up to a_s^2 only (the (3,.) factorisation entries are a TODO in the source, as the property states)",
     ]
     return chk
